@@ -1,5 +1,9 @@
 CONSTANTS
   Variant = "fixed"
+  CookieSet = {"valid", "expired", "wronghash", "malformed", "absent"}
+  PinSet = {"right", "wrong"}
+  HostCs = {"D", "N", "E"}
+  ConfigOn = FALSE
   ExportCnts = {0, 1, 10, 11, 12}
 INIT Init
 NEXT Next
